@@ -15,7 +15,8 @@ HARNESS = os.path.join(VERIF, "harness")
 BUILD = os.path.join(VERIF, ".build")
 REPO = os.environ.get("VERIF_REPO", "/repo")   # VERIF_REPO=<scratch worktree of /repo>: mutation experiments without touching /repo
 ALT = REPO != "/repo"
-TARGET = os.path.join(BUILD, "target-alt" if ALT else "target")
+ALT_TAG = os.environ.get("VERIF_ALT_TAG", "")   # several scratch-copy runs in parallel: one build/evidence dir per tag
+TARGET = os.path.join(BUILD, ("target-alt" + ALT_TAG) if ALT else "target")
 VH = os.path.join(TARGET, "release", "vh")
 MODEL = os.path.join(LEAN, ".lake", "build", "bin", "spdcmodel")
 GUARD = "spdcalc_verif"
@@ -51,7 +52,7 @@ def build_harness():
     os.makedirs(BUILD, exist_ok=True)
     if ALT:
         import shutil
-        alt = os.path.join(BUILD, "harness-alt")
+        alt = os.path.join(BUILD, "harness-alt" + ALT_TAG)
         shutil.rmtree(alt, ignore_errors=True)
         shutil.copytree(HARNESS, alt, ignore=shutil.ignore_patterns("target"))
         ct = os.path.join(alt, "Cargo.toml")
